@@ -417,6 +417,27 @@ Section Analysis.
     | (t, x) :: r => let s1 := vel_step dt s prev t x in vs_vrep s1 :: vel_run dt s1 (Some t) r
     end.
 
+  (* ---- B'. total force of a scalar variable when the engine delivers forces one evaluation late --------
+     Engine convention (total_forces_same_step() = false, e.g. NAMD; harness/vsim.h): at each evaluation the engine
+     hands over the force that was exerted at its previous evaluation.  Colvars (colvar::collect_cvc_data /
+     lagged_total_force_available / collect_cvc_total_forces / end_of_step): the delivered force is collected only if
+     step_relative > 0, the variable was computed at the previous step (or this same step, repeated) and its total-force
+     calculation was enabled then; otherwise ft keeps its value.  One-component variable, zero Jacobian term. *)
+  Record lfstate := mkLF {
+    lf_ft : T;                    (* colvar::ft (what the ft_ column prints) *)
+    lf_prev : option nat;         (* colvar::prev_timestep *)
+    lf_prev_calc : bool;          (* colvar::prev_total_force_calc *)
+    lf_engine : T }.              (* engine side: the force exerted at the previous evaluation *)
+  Definition lf0 : lfstate := mkLF (n0 O) None false (n0 O).
+  Definition lf_available (s : lfstate) (rel : nat) : bool :=
+    (0 <? rel)%nat && (match lf_prev s with Some p => (rel - 1 <=? p)%nat | None => false end) && lf_prev_calc s.
+  (* one evaluation: rel = step_relative, enabled = total-force calculation requested now, f = force exerted now *)
+  Definition lf_step (s : lfstate) (ev : nat * bool * T) : lfstate :=
+    let '(rel, enabled, f) := ev in
+    let delivered := lf_engine s in
+    mkLF (if lf_available s rel && enabled then delivered else lf_ft s) (Some rel) enabled f.
+  Definition lf_run (s : lfstate) (h : list (nat * bool * T)) : lfstate := fold_left lf_step h s.
+
   (* ---- C. running average --------------------------------------------------------------------- *)
   Record rstate := mkRS { r_init : bool; r_hist : list T }.
   Definition r0 : rstate := mkRS false [].
